@@ -47,7 +47,8 @@ theorem superpose_ok {kernel : List V → List V → Except Err (Mat3 Rat)} {mob
     | ok m =>
       obtain ⟨P, Q⟩ := m
       by_cases hP : P.isEmpty = true
-      · simp [hs, hm, hP, bind, Except.bind, throw, throwThe, MonadExceptOf.throw] at h
+      · cases hx : superposeSelection kernel (mob.rows.map pos) P Q <;>
+          simp [hs, hm, hP, hx, bind, Except.bind, throw, throwThe, MonadExceptOf.throw] at h
       · cases hx : superposeSelection kernel (mob.rows.map pos) P Q with
         | error e => simp [hs, hm, hP, hx, bind, Except.bind] at h
         | ok xyz =>
